@@ -353,9 +353,11 @@ def trace_case():
     return st.tuples(st.one_of(file_case, file_case, file_case, other_case), common).map(lambda t: dict(t[0], **t[1]))
 
 
+HYP = {"trace": (lambda ctx: trace_case(), check_trace)}
+
 def run(ctx):
     quick = ctx.tier == "quick"
-    ctx.hyp(trace_case(), lambda c: check_trace(ctx, c), 600 if quick else 20000, salt=1)
+    ctx.hyp_sharded("trace", 4000 if quick else 40000, salt=1)
     for v in (0, 1, 2, 4):
         for pattern in ("none", "match", "nomatch"):
             for ansi in (False, True):
